@@ -11,6 +11,8 @@ pub type Tree = BTreeMap<String, String>;
 pub enum GitOp {
     Create { path: String },
     Edit { path: String },
+    /// as Edit, but the file keeps an old modification time (cp -p, rsync -t, tar extraction, mv of an older file)
+    EditOld { path: String },
     Delete { path: String },
     Move { from: String, to: String, git: bool, edit: bool },
     Stage { path: String },
@@ -18,6 +20,10 @@ pub enum GitOp {
     Unstage { path: String },
     Commit { all: bool },
     WriteIgnored { path: String },
+    /// create n files with non-ASCII names in one directory (a listing longer than one pipe buffer)
+    Bulk { dir: String, n: usize, tag: usize },
+    /// git checkout <commit #n> -- <path>: working tree and index take the committed content
+    Checkout { path: String, commit: usize },
     /// checkpoint update [--id <commit #n> | --id <raw>] [--pending]
     CpUpdate { id: Option<usize>, raw_id: Option<String>, pending: bool },
     CpShow,
@@ -66,7 +72,7 @@ impl RGit {
     /// apply the repository effect of an op to the model (checkpoint / analyze ops have none)
     pub fn apply(&mut self, op: &GitOp) {
         match op {
-            GitOp::Create { path } | GitOp::Edit { path } | GitOp::WriteIgnored { path } => {
+            GitOp::Create { path } | GitOp::Edit { path } | GitOp::EditOld { path } | GitOp::WriteIgnored { path } => {
                 let c = self.fresh();
                 self.wt.insert(path.clone(), c);
             }
@@ -117,6 +123,19 @@ impl RGit {
                     self.index.remove(path);
                 }
             },
+            GitOp::Bulk { dir, n, tag } => {
+                for i in 0..*n {
+                    let c = self.fresh();
+                    self.wt.insert(bulk_name(dir, *tag, i), c);
+                }
+            }
+            GitOp::Checkout { path, commit } => {
+                let c = (*commit).min(self.commits.len() - 1);
+                if let Some(content) = self.commits[c].get(path).cloned() {
+                    self.wt.insert(path.clone(), content.clone());
+                    self.index.insert(path.clone(), content);
+                }
+            }
             GitOp::Commit { all } => {
                 if *all {
                     let tracked: Vec<String> = self.index.keys().cloned().collect();
@@ -191,6 +210,10 @@ impl RGit {
     }
 }
 
+pub fn bulk_name(dir: &str, tag: usize, i: usize) -> String {
+    format!("{}/bulk{}/данные-{:04}-файл.txt", dir, tag, i)
+}
+
 pub const NAME_POOL: [&str; 14] = [
     "a.txt", "b.txt", "sub/c.txt", "with space.txt", "sub dir/d e.txt", "ünï.txt", "日本語.txt", "quo\"te.txt", "back\\slash.txt", "tab\there.txt", "deep/er/f.txt", "émoji-✓.md", "x.log", "build/out.bin",
 ];
@@ -213,18 +236,26 @@ pub struct HistGen<'a> {
     pub dirs: Vec<String>,
     pub protected: BTreeSet<String>,
     pub long_names: bool,
+    /// at most one bulk creation per history
+    pub bulk_left: usize,
+    /// at most this many files larger than 2 MiB per history
+    pub big_left: usize,
     n_created: usize,
 }
 
 impl<'a> HistGen<'a> {
     pub fn new(rng: &'a mut Rng, model: RGit, dirs: Vec<String>, protected: BTreeSet<String>) -> Self {
-        HistGen { rng, model, dirs, protected, long_names: false, n_created: 0 }
+        HistGen { rng, model, dirs, protected, long_names: false, bulk_left: 0, big_left: 0, n_created: 0 }
     }
     fn new_path(&mut self, ignored: bool) -> String {
         let d = self.dirs[self.rng.below(self.dirs.len())].clone();
         self.n_created += 1;
         if ignored {
             return if self.model.ignore_log && (self.rng.chance(1, 2) || !self.model.ignore_build) { format!("{}/gen{}.log", d, self.n_created) } else { format!("{}/build/o{}.bin", d, self.n_created) };
+        }
+        if self.big_left > 0 && self.rng.chance(1, 3) {
+            self.big_left -= 1;
+            return format!("{}/{}data.big", d, self.n_created);
         }
         let base = if self.long_names && self.rng.chance(1, 12) { format!("{}-{}.txt", "L".repeat(200), self.n_created) } else { NAME_POOL[self.rng.below(12)].to_string() };
         // unique by construction: prefix the counter into the last component
@@ -247,9 +278,19 @@ impl<'a> HistGen<'a> {
         for _ in 0..20 {
             let wt: BTreeSet<String> = self.model.wt.keys().filter(|p| !self.model.is_ignored(p)).cloned().collect();
             let tracked_wt: BTreeSet<String> = wt.iter().filter(|p| self.model.index.contains_key(*p)).cloned().collect();
+            if self.bulk_left > 0 && self.rng.chance(1, 4) {
+                self.bulk_left -= 1;
+                self.n_created += 1;
+                let op = GitOp::Bulk { dir: self.dirs[self.rng.below(self.dirs.len())].clone(), n: 200 + self.rng.below(250), tag: self.n_created };
+                self.model.apply(&op);
+                return op;
+            }
             let op = match self.rng.below(20) {
                 0..=3 => Some(GitOp::Create { path: self.new_path(false) }),
-                4..=6 => self.existing(&wt).map(|p| GitOp::Edit { path: p }),
+                4..=6 => {
+                    let old = self.rng.chance(1, 5);
+                    self.existing(&wt).map(|p| if old { GitOp::EditOld { path: p } } else { GitOp::Edit { path: p } })
+                }
                 7 | 8 => self.existing(&wt).map(|p| GitOp::Delete { path: p }),
                 9 | 10 => {
                     let git = self.rng.chance(1, 2);
@@ -269,6 +310,13 @@ impl<'a> HistGen<'a> {
                     self.existing(&idx).map(|p| GitOp::Unstage { path: p })
                 }
                 16 | 17 => Some(GitOp::Commit { all: self.rng.chance(1, 2) }),
+                19 => {
+                    // restore a path from any commit that has it
+                    let nc = self.model.commits.len();
+                    let c = self.rng.below(nc);
+                    let keys: BTreeSet<String> = self.model.commits[c].keys().filter(|p| !self.protected.contains(*p)).cloned().collect();
+                    self.existing(&keys).map(|p| GitOp::Checkout { path: p, commit: c })
+                }
                 18 => {
                     if self.model.ignore_log || self.model.ignore_build {
                         Some(GitOp::WriteIgnored { path: self.new_path(true) })
@@ -293,9 +341,13 @@ impl<'a> HistGen<'a> {
 /// model's (the caller applies the op to the model first and passes the resulting tree).
 pub fn exec_repo_op(w: &mut World, op: &GitOp, model_after: &RGit) -> Result<(), String> {
     match op {
-        GitOp::Create { path } | GitOp::Edit { path } | GitOp::WriteIgnored { path } => {
+        GitOp::Create { path } | GitOp::Edit { path } | GitOp::EditOld { path } | GitOp::WriteIgnored { path } => {
             let c = model_after.wt.get(path).ok_or("model lost path")?;
-            w.write_file(path, c)
+            write_managed(w, path, c)?;
+            if let GitOp::EditOld { .. } = op {
+                set_old_mtime(&w.root.join(path))?;
+            }
+            Ok(())
         }
         GitOp::Delete { path } => std::fs::remove_file(w.root.join(path)).map_err(|e| format!("rm {}: {}", path, e)),
         GitOp::Move { from, to, git, edit } => {
@@ -309,7 +361,7 @@ pub fn exec_repo_op(w: &mut World, op: &GitOp, model_after: &RGit) -> Result<(),
             }
             if *edit {
                 let c = model_after.wt.get(to).ok_or("model lost path")?;
-                w.write_file(to, c)?;
+                write_managed(w, to, c)?;
             }
             Ok(())
         }
@@ -323,6 +375,25 @@ pub fn exec_repo_op(w: &mut World, op: &GitOp, model_after: &RGit) -> Result<(),
             let _ = w.git_raw(&["reset", "-q", "--", path])?;
             Ok(())
         }
+        GitOp::Bulk { dir, n, tag } => {
+            for i in 0..*n {
+                let p = bulk_name(dir, *tag, i);
+                let c = model_after.wt.get(&p).ok_or("model lost path")?;
+                w.write_file(&p, c)?;
+            }
+            Ok(())
+        }
+        GitOp::Checkout { path, commit } => {
+            let sha = w.git(&["rev-list", "--reverse", "HEAD"])?;
+            let shas: Vec<&str> = sha.lines().collect();
+            let c = (*commit).min(shas.len().saturating_sub(1));
+            // only when that commit has the path (the model does nothing otherwise)
+            let has = w.git_raw(&["cat-file", "-e", &format!("{}:{}", shas[c], path)])?.code == Some(0);
+            if has {
+                w.git(&["checkout", "-q", shas[c], "--", path])?;
+            }
+            Ok(())
+        }
         GitOp::Commit { all } => {
             if *all {
                 w.git(&["commit", "-q", "--allow-empty", "-a", "-m", "c"]).map(|_| ())
@@ -332,6 +403,34 @@ pub fn exec_repo_op(w: &mut World, op: &GitOp, model_after: &RGit) -> Result<(),
         }
         _ => Ok(()),
     }
+}
+
+/// Files whose name ends in ".big" carry a fixed 2.5 MiB prefix in front of the model's content, so
+/// that every edit changes only bytes beyond the first couple of MiB of the file.
+pub fn write_managed(w: &World, rel: &str, content: &str) -> Result<(), String> {
+    if rel.ends_with(".big") {
+        let mut v = Vec::with_capacity(2_700_000);
+        let line = b"0123456789abcdef0123456789abcdef0123456789abcdef0123456789abcde\n";
+        while v.len() < 2_621_440 {
+            v.extend_from_slice(line);
+        }
+        v.extend_from_slice(content.as_bytes());
+        w.write_bytes(rel, &v)
+    } else {
+        w.write_file(rel, content)
+    }
+}
+
+pub fn set_old_mtime(p: &std::path::Path) -> Result<(), String> {
+    use std::os::unix::ffi::OsStrExt;
+    let c = std::ffi::CString::new(p.as_os_str().as_bytes()).map_err(|e| e.to_string())?;
+    let t = libc::timespec { tv_sec: 1_000_000_000, tv_nsec: 0 };
+    let times = [t, t];
+    let r = unsafe { libc::utimensat(libc::AT_FDCWD, c.as_ptr(), times.as_ptr(), 0) };
+    if r != 0 {
+        return Err(format!("utimensat {}", p.display()));
+    }
+    Ok(())
 }
 
 pub fn split_z(b: &[u8]) -> BTreeSet<String> {
